@@ -392,6 +392,11 @@ def run(ctx):
     hostnames_agreement_rule(ctx, 'C01-D2')
     from .common import prefilter_judges_child_rule
     prefilter_judges_child_rule(ctx, 'C01-D2')
+    from .common import record_url_stores_rule
+    record_url_stores_rule(ctx, 'C01-D2')
+    # the crawl ends: a followed redirect does not keep its connection (the sixth would wait for ever)
+    from .common import download_recycles_rule
+    download_recycles_rule(ctx, 'C01-D5')
 
     # rows a killed run left in progress are released before anything is handed out (rule shared with C03), and the filters
     # decide as documented (tables shared with C02: a filter that refuses too much keeps in-scope URLs from being fetched)
